@@ -1,11 +1,12 @@
 #!/bin/bash
-# usage: bin/thorough_all.sh [root] [ids...] — runs every check's thorough tier once (binary must be built);
-# evidence/replays go under <root> (default /tmp/thorough_root) so that /verif/evidence is not disturbed.
+# usage: bin/thorough_all.sh [root] [ids...] — runs every check's thorough command (bin/check <id> thorough, with
+# the per-check scale table and the fuzz tier) once; evidence/replays go under <root> (default /tmp/thorough_root)
+# so that /verif/evidence is not disturbed.
 root=${1:-/tmp/thorough_root}; shift
 ids=${@:-$(python3 -c "import json;print(' '.join(c['property_id'] for c in json.load(open('/verif/MANIFEST.json'))['checks']))")}
 mkdir -p $root; cp /verif/known_findings.json $root/
 for id in $ids; do
   t0=$(date +%s)
-  out=$(VERIF_ROOT=$root VERIF_SEED=${VERIF_SEED:-1} nice -n 10 /verif/target/release/vcheck $id thorough 2>&1 | grep -E '^(OK|VIOLATION|INCONCLUSIVE)|FAIL' | head -3 | cut -c1-300)
+  out=$(VERIF_ROOT=$root VERIF_SEED=${VERIF_SEED:-1} nice -n 10 /verif/bin/check $id thorough 2>&1 | grep -E '^(OK|VIOLATION|INCONCLUSIVE|BUILD)|FAIL' | head -4 | cut -c1-300 | tr '\n' ' ')
   echo "$id $(( $(date +%s) - t0 ))s $out"
 done
